@@ -25,7 +25,7 @@ MinOf(S) == CHOOSE x \in S : \A y \in S : x <= y
 
 \* <<clause, step>> for every judged, executed step whose recorded offered set violates the clause
 Failing(R) == {<<cl, i>> \in ClauseNames(Prop) \X (1..Len(R.offered)) :
-                 Judged(R.steps, i) /\ ~Clause(cl, R, i)}
+                 (Judged(R.steps, i) \/ (cl = "C20_PageAppliedOnArrival" /\ R.steps[i].k = "listpart")) /\ ~Clause(cl, R, i)}
 
 \* always TRUE; prints the failing clauses of record pos at its first failing step
 Judge == pos >= 1 =>
@@ -34,8 +34,8 @@ Judge == pos >= 1 =>
            \/ LET first == MinOf({x[2] : x \in bad}) IN
               PrintT(<<"FAIL", ToJson([line |-> pos, step |-> first,
                                        clauses |-> {x[1] : x \in {y \in bad : y[2] = first}},
-                                       expected |-> Expected(R.steps, first),
-                                       expectedheld |-> Expected(R.steps, LastObserved(R.steps, first)),
+                                       expected |-> IF R.steps[first].k = "listpart" THEN ReadySetOf(ObservedWhilePending(R.steps, first, first)) ELSE Expected(R.steps, first),
+                                       expectedheld |-> ReadySetOf(ObservedWhilePending(R.steps, first, IF R.steps[first].k = "listpart" THEN first ELSE first - 1)),
                                        allsteps |-> {x[2] : x \in bad}])>>)
 
 AllConsumed == TLCGet("stats").diameter = Len(Recs) + 1 \/ PrintT(<<"NOTCONSUMED", ToJson([d |-> TLCGet("stats").diameter])>>)
